@@ -194,6 +194,8 @@ def gen_shape_workbook(rng, kind, big=2100):
     elif kind == "long":
         n = rng.choice([big // 2, big, big + big // 2])
         rows = [[(f"r{i}" if j == 0 else (_cell(rng) if rng.random() < 0.3 else "")) for j in range(w)] for i in range(n)]
+        for i in rng.sample(range(n), 3):
+            rows[i] = [""] * w            # the odd row without content inside a long table
         wb = {name: (h, rows)}
     elif kind == "wide":
         wide = rng.choice([100, 257, 400]) if big >= 300 else 20
